@@ -23,6 +23,7 @@ subscript, yield, raise, assert or `%` are assumed able to raise.
 import ast
 
 from sa.core import AnalysisError, walk_no_nested
+from sa.core import dotted as core_dotted
 
 
 class N(object):
@@ -67,15 +68,47 @@ _RAISING = (ast.Call, ast.Subscript, ast.Yield, ast.YieldFrom, ast.Await,
             ast.Raise, ast.Assert)
 
 
+_LOG_METHODS = ('debug', 'info', 'warning', 'warn', 'error', 'exception',
+                'critical', 'log')
+
+
+def is_log_call(n):
+  """`<something named *log*>.debug/info/...(...)` whose arguments contain no
+  further call or subscript: the logging package does not propagate handler
+  errors, so such a statement is modelled as non-raising."""
+  if not (isinstance(n, ast.Call) and isinstance(n.func, ast.Attribute) and
+          n.func.attr in _LOG_METHODS):
+    return False
+  recv = core_dotted(n.func.value) or ''
+  if 'log' not in recv.lower():
+    return False
+  for a in list(n.args) + [k.value for k in n.keywords]:
+    for x in ast.walk(a):
+      if isinstance(x, (ast.Call, ast.Subscript, ast.Yield, ast.YieldFrom,
+                        ast.Await, ast.NamedExpr)):
+        return False
+  return True
+
+
 def may_raise(node):
   if node is None:
     return False
-  for n in walk_no_nested(node):
+  stack = [node]
+  first = True
+  while stack:
+    n = stack.pop()
+    if not first and isinstance(n, (ast.FunctionDef, ast.AsyncFunctionDef,
+                                    ast.Lambda, ast.ClassDef)):
+      continue
+    first = False
+    if is_log_call(n):
+      continue
     if isinstance(n, _RAISING):
       return True
     if isinstance(n, ast.BinOp) and isinstance(n.op, (ast.Mod, ast.Div,
                                                        ast.FloorDiv)):
       return True
+    stack.extend(ast.iter_child_nodes(n))
   return False
 
 
